@@ -258,6 +258,63 @@ def _s3(program, res):
         res.fail_at("C16-S3", plj, "polars-coalesce-direction-right", f"`{t1[:110]}` does not prefer the original left value", whens[1])
 
 
+def _s3c(program, res):
+    """the coalesce of shared columns does not depend on the join type, and nothing overwrites a coalesced SQL term"""
+    # SQL: stores into `terms` after _coalesce_terms may only be pass-through (None)
+    nj = program.method("sql_model", "SQLModel", "natural_join_to_near_sql", inherited=False)
+    g = cfgmod.build(nj.node)
+    d = depsmod.Deps(g, nj.params())
+    n_st = 0
+    for n in g.stmt_nodes(("stmt",)):
+        st = n.stmt
+        if isinstance(st, ast.Assign) and isinstance(st.targets[0], ast.Subscript) and unparse(st.targets[0].value) == "terms":
+            n_st += 1
+            if isinstance(st.value, ast.Constant) and st.value.value is None:
+                guards = " ".join(unparse(b.cond) for b, _l in g.lexical_guards(n))
+                if "not in common" in guards:
+                    res.ok("C16-S3", "SQL: pass-through term (None) only for columns that are not shared")
+                else:
+                    res.fail_at("C16-S3", nj, "passthrough-for-shared-column", f"`{unparse(st)}` is not restricted to columns outside `common`", st)
+            else:
+                res.fail_at("C16-S3", nj, f"coalesced-term-overwritten:{unparse(st.value)[:40]}",
+                            f"`{unparse(st)[:90]}` replaces a select term of the join after the COALESCE terms were built: a shared "
+                            f"column (e.g. a same-named key under a native RIGHT/FULL join) would take one side's value only", st)
+    # the coalesce site depends on no join type
+    for n in g.stmt_nodes(("stmt",)):
+        if any(isinstance(c, ast.Call) and isinstance(c.func, ast.Attribute) and c.func.attr == "_coalesce_terms" for c in ast.walk(n.stmt)):
+            roots = d.own_guard_roots(n) | d.roots_at(n, n.stmt.value)
+            bad = [r for r in roots if r.endswith(".jointype") or r == "join_node.jointype"]
+            if bad:
+                res.fail_at("C16-S3", nj, "coalesce-depends-on-jointype", f"the COALESCE terms depend on {bad}", n.stmt)
+    # Polars / Pandas: the coalescing statements are not guarded by the join type
+    plj = program.method("polars_model", "PolarsModel", "_natural_join_step", inherited=False)
+    g2 = cfgmod.build(plj.node)
+    n_c = 0
+    for n in g2.stmt_nodes(("stmt",)):
+        if "pl.when" in unparse(n.stmt) and "is_null" in unparse(n.stmt):
+            n_c += 1
+            conds = [unparse(b.cond) for b, _l in g2.lexical_guards(n)]
+            extra = [c for c in conds if ("how" in c or "jointype" in c) and c.replace(" ", "") not in ("how!='right'", "how=='right'")]
+            if extra:
+                res.fail_at("C16-S3", plj, f"polars-coalesce-conditional:{extra[0][:40]}",
+                            f"the Polars coalesce of shared columns runs only under `{extra[0]}`: for the excluded join types a shared "
+                            f"non-key column keeps the left null where Pandas and SQL return the right value", n.stmt)
+            else:
+                res.ok("C16-S3", f"Polars: coalesce of shared columns guarded only by {conds}")
+    if n_c != 2:
+        raise AnalysisError("Polars _natural_join_step: coalescing statements not found")
+    pj = program.method("pandas_base", "PandasModelBase", "_natural_join_step", inherited=False)
+    g3 = cfgmod.build(pj.node)
+    for n in g3.stmt_nodes(("stmt",)):
+        if isinstance(n.stmt, ast.Assign) and unparse(n.stmt.targets[0]).startswith("res.loc[is_null"):
+            conds = [unparse(b.cond) for b, _l in g3.lexical_guards(n)]
+            extra = [c for c in conds if "jointype" in c or "how" in c]
+            if extra:
+                res.fail_at("C16-S3", pj, "pandas-coalesce-conditional", f"the Pandas fix-up of shared columns runs only under `{extra[0]}`", n.stmt)
+            else:
+                res.ok("C16-S3", "Pandas: shared-column fix-up does not depend on the join type")
+
+
 def _s4(program, res):
     pj = program.method("pandas_base", "PandasModelBase", "_natural_join_step", inherited=False)
     txt = unparse(pj.node)
@@ -293,4 +350,5 @@ def run(program, res, tier):
     _s1(program, res)
     paired_field_rewrite(program, res)
     _s3(program, res)
+    _s3c(program, res)
     _s4(program, res)
